@@ -43,7 +43,7 @@ class FrameItem(EFLRItem):
         self.index_max = NumericAttribute('index_max')
 
         #: (attribute, part) pairs whose values were derived from the data when the file was (last) written
-        self._derived_from_data: list[tuple[Attribute, str]] = []
+        self._derived_from_data: list[tuple[Attribute, str, int]] = []
 
         super().__init__(name, parent=parent, **kwargs)
 
@@ -99,11 +99,13 @@ class FrameItem(EFLRItem):
             if getattr(attr, key) is None and value is not None:
                 logger.debug(f"Setting {attr.label}.{key} of {self} to {value}")
                 setattr(attr, key, value)
-                self._derived_from_data.append((attr, key))
+                self._derived_from_data.append((attr, key, attr._assignments[key]))
 
         # what was derived from the data at a previous write describes that data, not necessarily the current one
-        for derived_attr, derived_key in self._derived_from_data:
-            setattr(derived_attr, '_' + derived_key, None)
+        # (unless the user has assigned the attribute part since then: that value is theirs)
+        for derived_attr, derived_key, n_assignments in self._derived_from_data:
+            if derived_attr._assignments[derived_key] == n_assignments:
+                setattr(derived_attr, '_' + derived_key, None)
         self._derived_from_data.clear()
 
         index_channel: ChannelItem = self.channels.value[0]
